@@ -10,8 +10,7 @@ static QString *g_newId, *g_newTo;
 
 extern "C" void h_reenter()
 {
-    Fixture f;                                   // cfg bit 256: pending ids have exactly 1 unit
-    vp_assume(f.used[0]);
+    Fixture f;                                   // cfg bits 256|512: exactly one pending request, its id has exactly 1 unit
     g_mgr = f.mgr;
     g_sendMode = 0;                              // the stream accepts the packet (new session is up / stream management caches it)
     QString newId = vpFixString(2), newTo = vpFixString(2);   // fresh id (2 units, all pending ids have 1), non-empty addressee
